@@ -19,12 +19,15 @@ from common import run_worker, lean_driver, real_env, PY, SCRATCH_ROOT
 
 LEVEL = 'proof'
 
+# a module file that is a symbolic link to a file stored elsewhere under another name: it is imported, selected and named by the link
+LINKED = 'def lk(x):\n    return x + 1\n\n\ndef lk2(x):\n    return lk(x) * 2\n'
+LINKS = json.dumps({'linked.py': 'store/linked_impl_v2.py'})
 MIXED = 'from other import of\n\n\ndef mx(x):\n    return of(x) + 1\n'
 KLASS = ('class HK2:\n    def plain(self, x):\n        return x\n\n    @staticmethod\n    def st(x):\n        return x\n\n    @classmethod\n    def cl(cls, x):\n        return x\n\n'
          '    @property\n    def pr(self):\n        return 1\n\n\ndef kfree(x):\n    return x\n\n\ndef pyth(x):\n    return x * x\n')     # a name whose dotted selection ends like a file name (`klass.pyth`)
-SELECTIONS = [['helper'], ['PATH:helper.py'], ['pkgk'], ['PATH:pkgk'], ['pkgk.sib'], ['pkgk.sub'], ['helper.hf'], ['helper.HK'], ['other'], ['helper,other'],
+SELECTIONS = [['linked'], ['PATH:linked.py'], ['helper'], ['PATH:helper.py'], ['pkgk'], ['PATH:pkgk'], ['pkgk.sib'], ['pkgk.sub'], ['helper.hf'], ['helper.HK'], ['other'], ['helper,other'],
               ['helper', 'pkgk.sub.deep'], ['mixed'], ['klass'], ['klass.HK2'], ['klass.pyth'], ['klass.kfree,klass.pyth'], ['PATH:prog.py'], ['nosuchmod'], ['PATH:does/not/exist.py'], ['pkgkx'], ['pk'], ['helpe'], ['pkg']]
-EXTRA_IMPORTS = [('import mixed', 'mixed.mx(1)'), ('from mixed import mx', 'mx(2)'), ('import klass', 'klass.kfree(1)'), ('from klass import HK2', 'HK2().plain(1)'), ('from klass import pyth, kfree as kf2', 'pyth(3) + kf2(1)')]
+EXTRA_IMPORTS = [('import linked', 'linked.lk2(1)'), ('from linked import lk', 'lk(2)'), ('import mixed', 'mixed.mx(1)'), ('from mixed import mx', 'mx(2)'), ('import klass', 'klass.kfree(1)'), ('from klass import HK2', 'HK2().plain(1)'), ('from klass import pyth, kfree as kf2', 'pyth(3) + kf2(1)')]
 
 
 def defs_in(text):
@@ -47,7 +50,7 @@ def defs_in(text):
     return out
 
 
-MODFILES = {'helper': 'helper.py', 'other': 'other.py', 'mixed': 'mixed.py', 'klass': 'klass.py', 'pkgk': 'pkgk/__init__.py', 'pkgk.sib': 'pkgk/sib.py',
+MODFILES = {'linked': 'linked.py', 'helper': 'helper.py', 'other': 'other.py', 'mixed': 'mixed.py', 'klass': 'klass.py', 'pkgk': 'pkgk/__init__.py', 'pkgk.sib': 'pkgk/sib.py',
             'pkgk.sub': 'pkgk/sub/__init__.py', 'pkgk.sub.deep': 'pkgk/sub/deep.py', 'pkgk.sub.dpkg': 'pkgk/sub/dpkg/__init__.py'}
 
 
@@ -103,6 +106,10 @@ def real_run(build, files, script, prof_mod, prof_imports=False):
             os.makedirs(os.path.dirname(p), exist_ok=True)
             with open(p, 'w') as fh:
                 fh.write(text)
+        for rel, target in json.loads(files.get('.links.json', '{}')).items():
+            os.makedirs(os.path.dirname(os.path.join(d, target)), exist_ok=True)
+            os.replace(os.path.join(d, rel), os.path.join(d, target))
+            os.symlink(os.path.join(d, target), os.path.join(d, rel))
         e = real_env(build)
         popts = []
         for x in prof_mod:
@@ -134,6 +141,8 @@ def run(ctx):
         prog = autoprog.gen_program(r)
         files = dict(prog['files'])
         files['mixed.py'] = MIXED
+        files['linked.py'] = LINKED
+        files['.links.json'] = LINKS
         files['klass.py'] = KLASS
         extra = r.sample(EXTRA_IMPORTS, r.below(3))
         text = files['prog.py']
@@ -327,6 +336,8 @@ def run(ctx):
         prog = autoprog.gen_program(r)
         files = dict(prog['files'])
         files['mixed.py'] = MIXED
+        files['linked.py'] = LINKED
+        files['.links.json'] = LINKS
         files['klass.py'] = KLASS
         text = (autoprog.PRELUDE + ''.join(st + '\n' for st, _e in imports_calls) + ''.join('\n\n' + src for src, _e in defs) + '\nif __name__ == "__main__":\n'
                 + ''.join('    print(repr(%s))\n' % e for _s, e in list(imports_calls) + list(defs)))
@@ -334,6 +345,7 @@ def run(ctx):
         prog['top_imports'] = [st for st, _e in imports_calls]
         return {'files': files, 'script': 'prog.py', 'prof_mod': sel, 'prog': prog}
     sample = [crafted([('import mixed', 'mixed.mx(1)')], ['mixed']),
+              crafted([('import linked', 'linked.lk2(1)')], ['linked']), crafted([('from linked import lk', 'lk(1)')], ['PATH:linked.py']),
               crafted([('from pkgk.sub import dpkg', 'dpkg.dpf(1)'), ('from pkgk import sib', 'sib.sf(1)')], ['pkgk']),
               crafted([('from klass import HK2', 'HK2().plain(1)'), ('import klass', 'klass.kfree(2)')], ['klass']),
               crafted([('from helper import hf as h2, hg', 'h2(1) + hg(2)'), ('from helper import HK', 'HK().hm(1)')], ['PATH:helper.py']),
@@ -379,7 +391,7 @@ def run(ctx):
             for part in (s.split(',') if not s.startswith('PATH:') else [s]):
                 if part.startswith('PATH:'):
                     rel = part[5:]
-                    sel_names.append({'helper.py': 'helper', 'pkgk': 'pkgk', 'pkgk/sub': 'pkgk.sub', 'prog.py': '__script__'}.get(rel, '__nothing__'))
+                    sel_names.append({'linked.py': 'linked', 'helper.py': 'helper', 'pkgk': 'pkgk', 'pkgk/sub': 'pkgk.sub', 'prog.py': '__script__'}.get(rel, '__nothing__'))
                 else:
                     sel_names.append(part)
         if c.get('prof_imports') and '__script__' in sel_names:
